@@ -1099,6 +1099,20 @@ def r03_4(ctx):
                 continue
             v = strip_all(val)
             want = 'over_in' if name == 'ShaderMaskBlitter' else 'over_in_in'
+            # an opaque source at full coverage replaces the destination: over_in(s, d, 255) = s when s >> 24 == 255
+            # (sw-composite: the source is scaled by 256/256, the destination by 1/256 into bits that are shifted out);
+            # a store of the source itself is that case when it is made under exactly these two tests
+            srd = elem_reads(v)
+            if v[0] == 'index' and len(srd) == 1 and field_path(srd[0][0])[1][:1] == ['tmp'] and want == 'over_in':
+                gs0 = normalized_guards(ctx, b, pt[0])
+                full = any(op == 'Eq' and const_val(strip_all(b2)) == 255 and len(elem_reads(a)) == 1 and field_path(elem_reads(a)[0][0])[0] == ('param', 5) for op, a, b2, si in gs0 if b2 is not None)
+                def alpha_of_src(t):
+                    t = strip_all(t)
+                    return t[0] == 'bin' and t[1] == 'Shr' and const_val(strip_all(t[3])) == 24 and nosite(strip_all(t[2])) == nosite(v)
+                opaque = any(op == 'Eq' and const_val(strip_all(b2)) == 255 and alpha_of_src(a) for op, a, b2, si in gs0 if b2 is not None)
+                ctx.check(full and opaque, R, key + '|roles (opaque fast path)', b.loc(), 'dest = tmp[i] only when mask[i] == 255 and tmp[i] >> 24 == 255',
+                          'the SrcOver blitter stores the source pixel itself without having tested mask == 255 and source alpha == 255: that equals over_in(source, dest, mask) only for an opaque source at full coverage')
+                continue
             ok = is_call(v, 'sw_composite::' + want)
             if ok:
                 a = v[2]
@@ -1941,6 +1955,13 @@ def r03_10(ctx):
                 n += 1
                 bad = []
                 for op, a, b2, si in normalized_guards(ctx, b, pt[0]):
+                    # SrcOver of an all-zero source pixel is the destination (sw-composite: over_in(0, d, m) = d,
+                    # over_in_in(0, d, m, c) = d — the source contributes 0 and the destination is scaled by 256/256):
+                    # skipping exactly `src == 0` (the whole word, not just its alpha) is the identity for these two
+                    if d in ('sw_composite::over_in', 'sw_composite::over_in_in') and b2 is not None and \
+                            ((op in ('Ne', '!Eq') and const_val(strip_all(b2)) == 0 and nosite(strip_all(a)) == nosite(strip_all(ct[2][0]))) or
+                             (op in ('Ne', '!Eq') and const_val(strip_all(a)) == 0 and nosite(strip_all(b2)) == nosite(strip_all(ct[2][0])))):
+                        continue
                     for side in (a, b2):
                         if side is None:
                             continue
